@@ -1,6 +1,7 @@
 // Simulated environment behind the library's Source / Sink / BlockAllocator
 // seams. Everything here is a stub; the library code in front of it is real.
 #pragma once
+#include <sys/mman.h>
 #include <cerrno>
 #include <cstdint>
 #include <cstdlib>
@@ -205,3 +206,42 @@ struct GuardedBlock {
 // errno values used as "hard" driver errors in scripts
 static const int HARD_ERRORS[] = {EIO, EPIPE, ENOMEM, ECONNRESET, EBADF, ENOSPC};
 static inline bool is_transient(int64_t e) { return e == -EINTR || e == -EAGAIN; }
+
+// ---- transfers that cannot be materialised (2^31 octets and more): a chunk-style driver over a reserved address range that nobody
+// ever touches. A chunk driver is only handed pointers and counts, so it can check that it is offered exactly the next stretch of
+// the caller's N octets each time without a single octet being stored.
+static unsigned char *huge_base() {
+    static unsigned char *b = nullptr;
+    if (!b) { void *m = mmap(nullptr, (size_t)1 << 35, PROT_NONE, MAP_PRIVATE | MAP_ANONYMOUS | MAP_NORESERVE, -1, 0); b = m == MAP_FAILED ? nullptr : (unsigned char *)m; }
+    return b;
+}
+struct VirtualDrv {
+    Ctx *c = nullptr; const unsigned char *base = nullptr; uint64_t total = 0, moved = 0, calls = 0;
+    std::vector<int64_t> caps; size_t ci = 0; std::vector<int64_t> errors;
+    bool bad_ptr = false, bad_n = false; uint64_t zeros = 0, partials = 0, maxpiece = 0;
+    // optionally real octets (a length prefix) may be written in front of the virtual payload; they are recorded
+    bool accept_small = false, small_after_payload = false; std::vector<uint8_t> small;
+    ssize_t call(const void *buf, size_t n) {
+        ++calls; c->step_budget();
+        if (accept_small && ((uintptr_t)buf < (uintptr_t)base || (uintptr_t)buf > (uintptr_t)base + total)) {
+            if (moved) small_after_payload = true;
+            int64_t s = ci < caps.size() ? caps[ci++] : INT64_MAX;
+            ssize_t rv;
+            if (s <= 0) { rv = (ssize_t)s; if (s < 0) errors.push_back(s); else ++zeros; c->faults_fired++; }
+            else { size_t k = n < (uint64_t)s ? n : (size_t)s; if (k > 64) { bad_n = true; k = 64; } small.insert(small.end(), (const uint8_t *)buf, (const uint8_t *)buf + k); rv = (ssize_t)k; }
+            c->ev(EV_SNK_CALL, n, (uint64_t)rv, small.size());
+            return rv;
+        }
+        if ((uintptr_t)buf != (uintptr_t)base + moved) bad_ptr = true;
+        if (n == 0 || n > total - moved) bad_n = true;
+        int64_t s = ci < caps.size() ? caps[ci++] : INT64_MAX;
+        ssize_t rv;
+        if (s <= 0) { rv = (ssize_t)s; if (s < 0) { errors.push_back(s); } else ++zeros; c->faults_fired++; COUNT(s == 0 ? "fault.zero_return" : is_transient(s) ? "fault.transient_error" : "fault.hard_error"); }
+        else { uint64_t k = n < (uint64_t)s ? n : (uint64_t)s; if (k > total - moved) k = total - moved; if (k < n) { ++partials; c->faults_fired++; COUNT("fault.huge_partial_transfer"); } moved += k; if (k > maxpiece) maxpiece = k; rv = (ssize_t)k; }
+        c->ev(EV_SNK_CALL, n, (uint64_t)rv, moved);
+        return rv;
+    }
+    static ssize_t sink_cb(void *d, const void *buf, size_t n) { return ((VirtualDrv *)d)->call(buf, n); }
+    static ssize_t source_cb(void *d, void *buf, size_t n) { return ((VirtualDrv *)d)->call(buf, n); }
+};
+
